@@ -128,6 +128,8 @@ func gen(c *lib.Ctx) {
 		genOrigin(c, "c05origin-ip", false)
 		genOrigin(c, "c05origin-scion", true)
 		genSPAO(c, "c05spao")
+		genAddr(c, "c05addr")
+		genTsWindow(c, "c05tswin")
 	case "c13":
 		genSPAO(c, "c13spao")
 	default:
